@@ -1056,6 +1056,12 @@ impl Database {
                 let mut file_manager_guard = self.shared.file_manager.write();
                 let file_manager = file_manager_guard.as_mut().unwrap();
                 let _ = file_manager.drop_table(schema_name, table_name);
+                // the overflow (TOAST) table goes with its owner, otherwise a later
+                // CREATE TABLE of the same name fails with "already exists"
+                let toast_table_name = crate::storage::toast::toast_table_name(table_name);
+                if file_manager.table_exists(schema_name, &toast_table_name) {
+                    let _ = file_manager.drop_table(schema_name, &toast_table_name);
+                }
             }
         }
 
